@@ -247,6 +247,13 @@ def gen_cases(chk, quick):
             calls.append(dict(proto=q, vals=G.fix_values(q, v, rng)))
         for e in ['interp', rng.choice(engines[1:])]:
             cases.append(dict(calls=calls, rets=rets, engine=e))
+    for seq in G.result_class_sessions():
+        calls = []
+        for q in seq:
+            v, rets = G.gen_values(rng, q)
+            calls.append(dict(proto=q, vals=G.fix_values(q, v, rng)))
+        for e in ['interp', rng.choice(engines[1:])]:
+            cases.append(dict(calls=calls, rets=rets, engine=e))
     return cases
 
 
@@ -343,6 +350,14 @@ def run(chk):
                 if nbad <= 14:
                     chk.finding(signature(c), replay_obj(c, bad, m), 'assert-enabled build: native callee does not receive the '
                                 'ABI image for %s via %s: %s' % (signature(c).split(':', 2)[2], c['engine'], '; '.join(bad[:3])))
+    for n, e, bad in nested_cases(chk, impl):
+        sig = 'c05:nested:%s:%d' % ('interp' if e == 'interp' else 'gen', n)
+        if sig in seen:
+            continue
+        seen.add(sig)
+        nbad += 1
+        chk.finding(sig, dict(kind='nested', n=n, engine=e, mismatches=bad, mir=nested_mir(n)),
+                    'MIR caller -> native reenter -> MIR inner -> native callee with %d arguments, via %s: %s' % (n, e, '; '.join(bad[:2])))
     # three-way: gcc-compiled callers and callees generated from the same prototypes
     trng = chk.rng('threeway')
     singles = []
@@ -369,9 +384,57 @@ def run(chk):
         chk.proof_broken(r, searched='%d calls agreed with the SysV model image' % len(cases))
 
 
+def nested_mir(n):
+    """caller (MIR) -> reenter (native) -> inner (MIR, through its public address) -> probe (native, n arguments)"""
+    L = ['m: module', 'import probe, vals, outs, reenter', 'rp: proto i64, i64:a',
+         'bp: proto i64, ' + ', '.join('i64:a%d' % k for k in range(n)), 'export caller, inner',
+         'inner: func i64, i64:x', 'local i64:r',
+         'call bp, probe, r, x' + ''.join(', %d' % k for k in range(1, n)), 'add r, x, 1', 'ret r', 'endfunc',
+         'caller: func', 'local i64:r, i64:o', 'mov o, outs', 'call rp, reenter, r, 5', 'mov i64:0(o), r', 'ret', 'endfunc',
+         'endmodule']
+    return '\n'.join(L) + '\n'
+
+
+def nested_cases(chk, impl):
+    """re-entrant calls: the result of the outer MIR->native call must survive whatever the nested MIR code calls"""
+    lines, meta = [], []
+    for n in (2, 40, 70, 80, 100):
+        for e in ENGINES_QUICK + ['lazy']:
+            meta.append((n, e))
+            lines.append(case_line('n%d.%s' % (n, e), 'c05', e, 'probe', nested_mir(n), bytes(16), bytes(80)))
+    rows, err = G.run_harness(vlib, impl, lines)
+    found = []
+    for n, e in meta:
+        r = rows.get('n%d.%s' % (n, e), dict(status='missing', detail=err[-200:]))
+        chk.count(('nested', n, e))
+        chk.dist('nested_reentrant_calls', '%d-arg inner call' % n)
+        bad = []
+        if r['status'] != 'ok':
+            bad.append('%s %s' % (r['status'], r.get('detail', '')))
+        else:
+            got = int.from_bytes(r['outs'][0:8], 'little')
+            if got != 1006:
+                bad.append('MIR caller receives %d from the native function, which returned 1006' % got)
+            f = G.img_fields(r['img'])
+            if f['count'] != 1:
+                bad.append('probe entered %d times' % f['count'])
+            elif int.from_bytes(r['img'][0:8], 'little') != 5 or (n > 7 and int.from_bytes(r['img'][256 + 8:256 + 16], 'little') != 7):
+                bad.append('nested call: probe does not see its arguments (rdi=%x)' % int.from_bytes(r['img'][0:8], 'little'))
+        if bad:
+            found.append((n, e, bad))
+    return found
+
+
 def replay(chk, path):
     j = json.load(open(path))['replay']
     impl, model = build(chk)
+    if j.get('kind') == 'nested':
+        line = case_line('n', 'c05', j['engine'], 'probe', nested_mir(j['n']), bytes(16), bytes(80))
+        rows, err = G.run_harness(vlib, impl, [line])
+        r = rows.get('n', dict(status='missing'))
+        got = int.from_bytes(r['outs'][0:8], 'little') if r['status'] == 'ok' else None
+        print('nested call chain, inner call with %d arguments via %s: MIR caller receives %s (1006 expected)' % (j['n'], j['engine'], got if got is not None else r['status']))
+        return 0 if got == 1006 else 1
     calls = j.get('calls') or [dict(proto=j['proto'], vals=j['vals'])]
     c = dict(calls=[dict(proto=x['proto'], vals=[bytes.fromhex(v) for v in x['vals']]) for x in calls],
              engine=j['engine'], target=j.get('target', 'probe'),
